@@ -28,7 +28,8 @@ uint64_t random_uint64()
     if (verif::zobrist_seed.load() != 0)
     {
         static std::mt19937_64 seeded(verif::zobrist_seed.load());
-        return seeded();
+        const uint64_t mask = verif::zobrist_mask.load();
+        return mask != 0 ? (seeded() & mask) : seeded();
     }
 #endif
     static std::random_device rd;
